@@ -301,7 +301,8 @@ def check_rotate(nprog=400, seed=11):
         if rnd.random() < 0.1:
             body.insert(0, "d = 5")  # the primed variable written elsewhere in the body: must be left alone
         last = P if rnd.random() < 0.9 else "d = nxt() % 5"
-        src = "def prog(nxt, log, risky):\n    res = 0\n    x = 0\n    %s\n    while %s:\n        %s\n    return (res, d)\n" % (P, T, "\n        ".join(body + [last]))
+        els = rnd.choice(["", "", "    else:\n        res += 100\n        log(res)\n", "    else:\n        d = -1\n"])
+        src = "def prog(nxt, log, risky):\n    res = 0\n    x = 0\n    %s\n    while %s:\n        %s\n%s    return (res, d)\n" % (P, T, "\n        ".join(body + [last]), els)
         t1, t2 = ast.parse(src), ast.parse(src)
         fn = t2.body[0]
         new = _rotate_primed_loops(fn.body)
@@ -379,7 +380,9 @@ def check_alias(nprog=400, seed=17):
     rewritten = mismatches = 0
     first = None
     for _ in range(nprog):
-        fill = rnd.choice(["b += d", "b += d", "self._buf += d", "self._buf = self._buf + d", "b = b + d", "self._buf = b + d", "b += d\n        b += d[:1]"])
+        fill = rnd.choice(["b += d", "b += d", "self._buf += d", "self._buf = self._buf + d", "b = b + d", "self._buf = b + d", "b += d\n        b += d[:1]",
+                           "try:\n            c = self._buf\n            c += d\n        except ValueError:\n            return False", "if v > 1:\n            c = self._buf\n            c += d\n        else:\n            self._buf += d[:1]",
+                           "if v > 1:\n            c = self._buf\n        else:\n            c = bytearray()\n        c += d"])
         take = rnd.choice(["x = b[:n]\n        self._buf = b[n:]", "x = self._buf[:n]\n        self._buf = self._buf[n:]", "x = b[:n]\n        self._buf = b[n:]\n        x = x + b[:1]",
                            "x = b[:n]\n        del b[:n]", "x = b[:n]\n        self._buf = bytearray(b[n:])"])
         head = rnd.choice(["b = self._buf", "b = self._buf", "b = bytearray(self._buf)", "b = self._buf\n        c = b"])
